@@ -100,3 +100,24 @@ package opentype
 //@   ensures [length] implies(result1 == nil && old(has(pr.tables, tag)) && !(old(pr.tables[tag].length) != 0 && old(pr.tables[tag].length) < old(pr.tables[tag].zLength)), len(result0) == int(old(pr.tables[tag].length)))
 //@   ensures [missing] implies(!old(has(pr.tables, tag)), result1 != nil)
 //@   modifies unspecified
+//
+// readOTFHeader ("loading [the written file] returns exactly the same tags"): every 12-byte header is accepted - the
+// only failure is a failed read. readFails is a ghost flag raised by any Read on r that returns an error (one-way
+// implication, so several reads on the same reader stay consistent).
+//@ opaque readFails(r io.Reader) bool
+//@ trusted std:io.Reader.Read
+//@   params r, p
+//@   ensures [error-raises-flag] implies(result1 != nil, readFails(r))
+//@   modifies p[0:len(p)]
+//@ func readOTFHeader C19
+//@   mode bv
+//@   ensures [rejects-only-on-read-error] implies(err != nil, readFails(r))
+//@   modifies nothing
+//
+// Loader.Tables returns the tags "sorted by tag": the comparator handed to sort.Slice is the (unsigned) order of Tag,
+// the one WriteTTF expects of its input and binary search over the directory relies on.
+//@ func Loader.Tables$1 C19
+//@   mode bv
+//@   requires [indices-from-sort] 0 <= i && i < len(out) && 0 <= j && j < len(out)
+//@   ensures [unsigned-tag-order] result == (uint32(out[i]) < uint32(out[j]))
+//@   modifies nothing
